@@ -234,12 +234,28 @@ def ob_twin(ctx, K1, K2):
     prev = 'diffx'
     menu = _menu(ctx)
     seq = []
-    for i in range(K1):
-        seq.append(ctx.pick('call%d' % i, VALID_CALLS) + (True,))
+    if K1 == 'states':
+        # a canonical history reaching each of the nine writer states, containers with or without an own encoding
+        V = {c[0]: c for c in VALID_CALLS}
+        reach = {'diffx': [], '.preamble': ['write_preamble'], '.meta': ['write_meta'], '.change': ['new_change'],
+                 '..preamble': ['new_change', 'write_preamble'], '..meta': ['new_change', 'write_meta'],
+                 '..file': ['new_change', 'new_file'], '...meta': ['new_change', 'new_file', 'write_meta'],
+                 '...diff': ['new_change', 'new_file', 'write_meta', 'write_diff']}
+        state = ctx.pick('state', IDS)
+        variant = ctx.pick('enc-variant', ['plain', 'change-enc', 'file-enc'])
+        for c in reach[state]:
+            if c == 'new_change' and variant == 'change-enc':
+                c = 'new_change:enc'
+            if c == 'new_file' and variant == 'file-enc':
+                c = 'new_file:enc'
+            seq.append(V[c] + (True,))
+    else:
+        for i in range(K1):
+            seq.append(ctx.pick('call%d' % i, VALID_CALLS) + (True,))
     lab = ctx.pick('mid', [mm[0] for mm in menu])
     seq.append([mm for mm in menu if mm[0] == lab][0])
     for i in range(K2):
-        seq.append(ctx.pick('call%d' % (K1 + 1 + i), VALID_CALLS[:5]) + (True,))
+        seq.append(ctx.pick('after%d' % i, VALID_CALLS[:5]) + (True,))
     hist = []
     accepted = []
 
@@ -309,13 +325,18 @@ def obligations(tier):
     K = 4 if quick else 6
     obs.append(Ob('public[K<=%d]' % K, ob_public, dict(K=K), must_reach=['DiffXWriter._validate_section'],
                   desc='all call sequences of length %d over the five calls through the public API' % K, bounds={'calls': K}))
-    K1, K2 = (1, 2) if quick else (3, 2)
-    obs.append(Ob('public-twin[%d+1+%d]' % (K1, K2), ob_twin, dict(K1=K1, K2=K2), must_reach=['DiffXWriter._validate_section'],
+    K2 = 2 if quick else 3
+    obs.append(Ob('public-twin[states+1+%d]' % K2, ob_twin, dict(K1='states', K2=K2), must_reach=['DiffXWriter._validate_section'],
                   path_timeout=30,
-                  desc='public API only: %d valid-argument calls, one call out of the 26 valid/invalid variants (symbolic '
-                       'text and codec-name characters), %d more calls: rejected calls write nothing, acceptance follows '
-                       'the hierarchy, final output == output of a twin writer given only the accepted calls' % (K1, K2),
-                  bounds={'calls_before': K1, 'calls_after': K2, 'variants': 26}))
+                  desc='public API only: a canonical history reaching each of the 9 writer states (containers with / without '
+                       'an own encoding), one call out of the 26 valid/invalid variants (symbolic text and codec-name '
+                       'characters), %d more calls: rejected calls write nothing, acceptance follows the hierarchy, final '
+                       'output == output of a twin writer given only the accepted calls' % K2,
+                  bounds={'states': 9, 'encoding_variants': 3, 'calls_after': K2, 'variants': 26}))
+    if not quick:
+        obs.append(Ob('public-twin[3+1+2]', ob_twin, dict(K1=3, K2=2), must_reach=['DiffXWriter._validate_section'],
+                      path_timeout=30, desc='as above with every 3-call prefix over the 7-call menu instead of the canonical histories',
+                      bounds={'calls_before': 3, 'calls_after': 2, 'variants': 26}))
     return obs
 
 
